@@ -94,6 +94,7 @@ class Run:
         self.knobs = knobs
         self.events = []  # (kind, ...) with the virtual time appended; index = global sequence number
         self.seam.attach(self.sim, bufsize=knobs.get("bufsize", 8192))
+        self.seam.separate_hosts = bool(knobs.get("separate_hosts"))
         self.server = None
         self.boots = 0
         CUR = self
